@@ -25,6 +25,27 @@ _COMPONENTS_AST = {
 }
 
 CHECKS = {
+    "C26": {
+        "engine": "cli_faults",
+        "level": "fault_enumeration",
+        "rule": "Seeded invocations of tools.compiler.main in a sandbox (valid files, a file with a syntax error, a "
+                "sub-directory, an output directory): 1-3 PATHs (file / directory / missing), 0-3 -m (valid, failing to "
+                "flatten, unknown, repeated), target none / sympy / casadi, -O well-formed or not, -o existing / missing / "
+                "a file. control = fault-free run of every invocation; single_faults = for every I/O site of the "
+                "invocation's own trace (every source open/read, every output open/write/close) every applicable fault "
+                "(EIO, EACCES, ENOENT = vanished, ENOSPC), one at a time, exhaustively; fault_pairs = seeded pairs. The "
+                "exit status is compared with a staged reference (argparse -> 2; usage errors; unreadable/unparsable "
+                "files or no file; failing models incl. those whose output write was hit by a fired fault). "
+                "distinct_nontrivial = distinct (invocation, fired fault set).",
+        "assumptions": ["over argv alone the property is a pure function; the control configuration is kept only so that "
+                        "fault-mode relaxations cannot hide ordinary bugs, it is not claimed as coverage of all invocations",
+                        "when errors of two categories coexist in the input only 0 < status <= total is required",
+                        "casadi target: control configuration only, and no files with syntax errors in the paths"],
+        "components": {"real": ["tools.compiler.main, pymoca parser / tree / SymPy generator / CasADi API from the working "
+                                "tree", "argparse"],
+                       "simulated": ["file system faults at the open/read/write/close seam (EIO, EACCES, ENOSPC, vanished "
+                                     "file or directory)"], "stub": []},
+    },
     "C27": {
         "engine": "lib_order",
         "level": "exploration",
@@ -153,6 +174,16 @@ CHECKS = {
 }
 
 MANIFEST_TEXT = {
+    "C26": {
+        "level_text": "Per generated invocation, exhaustive single-fault enumeration over the I/O sites of its own trace "
+                      "(plus seeded pairs) with the exit status checked against a staged reference model; scoped to the "
+                      "slice this family can add (I/O failures and multi-model requests), with the fault-free run as "
+                      "control.",
+        "design_ref": "DESIGN.md 3.C26",
+        "level_note": "One sandbox layout; invocations are sampled, faults per invocation are exhaustive for single faults.",
+        "technique": "deterministic simulation with fault injection: per-site I/O fault enumeration at the file seam, "
+                     "reference model for the exit status",
+    },
     "C27": {
         "level_text": "The file order is the schedule: every permutation of the files of seeded library splits through "
                       "Tree.extend, and decided os.scandir orders through the API's and the CLI's directory walks; the "
@@ -265,5 +296,4 @@ NOT_APPLICABLE = {
     "C24": _PURE + "SymPy source generation depends on the flat class only (its deep copy of the tree is C06).",
     "C25": _PURE + "XML generation depends on the flat class only (its deep copy of the tree is C06).",
     # claimed in DESIGN.md, engines not built yet: listed here until their checks are registered
-    "C26": "in-family engine (cli_faults) designed in DESIGN.md but not built yet",
 }
